@@ -6,6 +6,6 @@ tmp=$(mktemp -d /tmp/mutant.XXXXXX)
 sed "$expr" "/repo/v3/$f" > "$tmp/m.go"
 if cmp -s "$tmp/m.go" "/repo/v3/$f"; then echo "MUTANT-NOOP"; rm -rf "$tmp"; exit 9; fi
 diff "/repo/v3/$f" "$tmp/m.go" | head -6
-SYMGO_OVERLAY="/repo/v3/$f=$tmp/m.go" /verif/check "$id" "$tier" 2>&1 | grep -v "^INCONCLUSIVE" | tail -6
+SYMGO_EVIDENCE_DIR=/tmp/ev_mutant SYMGO_OVERLAY="/repo/v3/$f=$tmp/m.go" /verif/check "$id" "$tier" 2>&1 | grep -v "^INCONCLUSIVE" | tail -6
 rc=$?
 rm -rf "$tmp"
